@@ -6,6 +6,7 @@ package main
 import (
 	"fmt"
 	"go/token"
+	"go/types"
 	"sort"
 	"strings"
 
@@ -33,7 +34,8 @@ func checkC18(c *Ctx) {
 		"K3 every rejecting guard (invalid header, protocol ≠ 17, payload < 8, address/port mismatch) leads back to the read; the loop is left only on read error, n == 0 and success; delivery requires each guard",
 		"K4 the source address returned is {IP source field, UDP source port} of the frame just parsed",
 		"K5 writer: slot layout of the IPv4 and UDP headers against RFC 791 / RFC 768 (offset, width, value of every header store; version/IHL from constants; total length 20+8+len; protocol 17; UDP length 8+len; ports/addresses from the arguments; payload appended verbatim); getters and setters use the same offsets",
-		"K6 ordering: each checksum field is written after all other fields of its header, from the complement of the value computed over that header")
+		"K6 ordering: each checksum field is written after all other fields of its header, from the complement of the value computed over that header",
+		"K7 byte weights and fold of the RFC 1071 summation routine; K8 partial sums are combined only through that routine: no 16-bit addition has a checksum-derived operand outside it")
 	r.NotDecided = append(r.NotDecided, "that the checksum values verify under RFC 1071 (carry folding is arithmetic on runtime values)", "arrival-order claims over frame sequences", "the deprecated client4.MakeRawUDPPacket")
 	fn := rawReadFrom(c)
 	if fn == nil {
@@ -56,6 +58,128 @@ func checkC18(c *Ctx) {
 	c18Reader(c, fn, "C18")
 	c18Writer(c)
 	c18ChecksumShape(c)
+	c18ChecksumArith(c)
+}
+
+// c18ChecksumArith: K8 — ones'-complement partial sums are only ever combined through the summation routine
+// (end-around carry). Outside the two arithmetic leaves (calculateChecksum, checksumCombine) no value that
+// derives from a checksum result is an operand of a 16-bit (or narrower) addition or subtraction: that drops the carry.
+func c18ChecksumArith(c *Ctx) {
+	r := c.R
+	sp := c.P.SSAPkg[nc4]
+	if sp == nil {
+		r.Undecided("C18-K8", "nclient4 package", "-", "not loaded")
+		return
+	}
+	var pf []*ssa.Function
+	for _, f := range c.P.ModuleFuncs() {
+		if f.Pkg == sp && f.Blocks != nil {
+			pf = append(pf, f)
+		}
+	}
+	sortFuncs(pf)
+	leaf := map[*ssa.Function]bool{}
+	for _, f := range pf {
+		if f.Name() == "calculateChecksum" && f.Signature.Recv() == nil || f.Name() == "checksumCombine" {
+			leaf[f] = true
+		}
+	}
+	if len(leaf) < 2 {
+		r.Undecided("C18-K8", "nclient4: summation routines", "-", "calculateChecksum / checksumCombine not found")
+		return
+	}
+	// S: package functions returning a 16-bit value that reach a leaf
+	inS := map[*ssa.Function]bool{}
+	for f := range leaf {
+		inS[f] = true
+	}
+	for changed := true; changed; {
+		changed = false
+		for _, f := range pf {
+			if inS[f] || f.Signature.Results().Len() != 1 {
+				continue
+			}
+			bt, ok := f.Signature.Results().At(0).Type().Underlying().(*types.Basic)
+			if !ok || bt.Kind() != types.Uint16 {
+				continue
+			}
+			allInstrs(f, func(in ssa.Instruction) {
+				if cl, ok := in.(*ssa.Call); ok && cl.Call.StaticCallee() != nil && inS[cl.Call.StaticCallee()] && !inS[f] {
+					// the call's result must reach the return
+					inS[f] = true
+					changed = true
+				}
+			})
+		}
+	}
+	tainted := map[ssa.Value]bool{}
+	var mark func(v ssa.Value)
+	mark = func(v ssa.Value) {
+		if tainted[v] {
+			return
+		}
+		tainted[v] = true
+		refs := v.Referrers()
+		if refs == nil {
+			return
+		}
+		for _, ref := range *refs {
+			switch x := ref.(type) {
+			case *ssa.Phi:
+				mark(x)
+			case *ssa.Convert:
+				mark(x)
+			case *ssa.ChangeType:
+				mark(x)
+			case *ssa.UnOp:
+				if x.Op == token.XOR {
+					mark(x)
+				}
+			case *ssa.Call:
+				if sf := x.Call.StaticCallee(); sf != nil && sf.Pkg == sp && sf.Blocks != nil {
+					for i, a := range x.Call.Args {
+						if a == v && i < len(sf.Params) {
+							mark(sf.Params[i])
+						}
+					}
+				}
+			}
+		}
+	}
+	for _, f := range pf {
+		allInstrs(f, func(in ssa.Instruction) {
+			if cl, ok := in.(*ssa.Call); ok && cl.Call.StaticCallee() != nil && inS[cl.Call.StaticCallee()] {
+				mark(cl)
+			}
+		})
+	}
+	n, bad := 0, 0
+	for _, f := range pf {
+		if leaf[f] {
+			continue
+		}
+		allInstrs(f, func(in ssa.Instruction) {
+			bo, ok := in.(*ssa.BinOp)
+			if !ok || (bo.Op != token.ADD && bo.Op != token.SUB) {
+				return
+			}
+			bt, ok := bo.Type().Underlying().(*types.Basic)
+			if !ok || (bt.Kind() != types.Uint16 && bt.Kind() != types.Uint8 && bt.Kind() != types.Int16) {
+				return
+			}
+			n++
+			if tainted[bo.X] || tainted[bo.Y] {
+				bad++
+				r.Violation("C18-K8", shortName(f)+": checksum term combined by a plain "+bt.Name()+" "+bo.Op.String(), c.P.ipos(bo),
+					"a partial ones'-complement sum is an operand of a 16-bit addition: the carry out of bit 15 is lost instead of being added back (RFC 1071), so the emitted checksum is off by one whenever the sum wraps")
+			}
+		})
+	}
+	if bad == 0 {
+		r.OK("C18-K8", "nclient4: partial checksums are combined only through the summation routines", "-", "taint from checksum results to 16-bit additions outside calculateChecksum/checksumCombine", fmt.Sprintf("%d checksum-valued functions, %d narrow additions scanned", len(inS), n))
+	}
+	r.Count("C18-K8-checksum-functions", len(inS))
+	r.Expect("C18-K8-checksum-functions", 5)
 }
 
 // c18ChecksumShape: K7 — byte weights of the RFC 1071 sum: a byte at an even offset is added as the high
